@@ -10,6 +10,7 @@ import H3.Drv.C17
 import H3.Drv.C01
 import H3.Drv.C12
 import H3.Drv.C07
+import H3.Drv.C19
 open H3.Drv
 
 def dispatch (ws : List String) : String :=
@@ -27,6 +28,7 @@ def dispatch (ws : List String) : String :=
     else if e == "e2e" then H3.Drv.C01.handle ws
     else if e == "hdr" then H3.Drv.C12.handle ws
     else if e == "iso" then H3.Drv.C07.handle ws
+    else if e == "wt" then H3.Drv.C19.handle ws
     else "bad-op"
 
 partial def loop (h : IO.FS.Stream) (out : IO.FS.Stream) : IO Unit := do
